@@ -20,6 +20,8 @@ VERIF = build.VERIF
 OUT = os.environ.get('VMON_OUT', VERIF)
 PY = build.PY
 
+from .harness import safe_repr  # noqa: E402
+
 
 def rng_for(seed, *parts):
     h = hashlib.sha256(('/'.join(str(p) for p in (seed,) + parts)).encode())
@@ -84,22 +86,26 @@ class Recorder:
 
 def jsonable(o, depth=0):
     if depth > 6:
-        return repr(o)
+        return safe_repr(o)
+    if isinstance(o, int) and not isinstance(o, bool) and \
+            o.bit_length() > 12000:
+        return '<int of %d bits>' % o.bit_length()
     if o is None or isinstance(o, (bool, int, str)):
         return o
     if isinstance(o, float):
         if o != o or o in (float('inf'), float('-inf')):
-            return repr(o)
+            return safe_repr(o)
         return o
     if isinstance(o, bytes):
         return 'b:' + o.hex()
     if isinstance(o, (list, tuple, set, frozenset)):
         return [jsonable(x, depth + 1) for x in o]
     if isinstance(o, dict):
-        return {str(k): jsonable(v, depth + 1) for k, v in o.items()}
+        return {safe_repr(k) if not isinstance(k, str) else k:
+                jsonable(v, depth + 1) for k, v in o.items()}
     if isinstance(o, type):
         return o.__name__
-    return repr(o)
+    return safe_repr(o)
 
 
 def shard_main(pid, specfile, outfile):
